@@ -57,4 +57,16 @@ theorem hash_full_fails :
       (applyFilter o (.cookie [⟨.delete, str "sid", []⟩]) ⟨f.key, .str (str "sid=S")⟩).val = .str (str "sid=S") :=
   ⟨wO, ⟨str "status", .other 0⟩, by decide⟩
 
+/-- FULL STATEMENT (false): the value of a `Set-Cookie` field of a response never reaches the access log
+    when credentials are not logged.  Refuted: a trailer field the upstream did not announce is copied by
+    reverse_proxy into the response header map under `http.TrailerPrefix + name` = `Trailer:Set-Cookie`
+    (reverseproxy.go finalizeResponse); `strings.ToLower("Trailer:Set-Cookie")` is none of the four names,
+    so `LoggableHTTPHeader` logs it as is.  (The provable part is `secret_absent_from_fields`, whose
+    hypothesis `OnlyInCreds … tResp` excludes exactly this.) -/
+theorem trailer_key_full_fails :
+    ∃ (h : Hdr) (secret : Bytes), h = [(str "Trailer:Set-Cookie", [str "sid=" ++ secret])] ∧
+      isCred (str "Trailer:Set-Cookie") = false ∧ loggableHeader h false = h ∧
+      occurs secret ((loggableHeader h false).flatMap fun kv => kv.2).flatten = true :=
+  ⟨[(str "Trailer:Set-Cookie", [str "sid=" ++ wTok])], wTok, by decide⟩
+
 end CaddyModel.C20
